@@ -98,11 +98,12 @@ def run_one(mod, case: dict, timeout: float) -> dict:
 
 
 def _worker(mod_id: str, seed: int, tier: str, w: int, nw: int, deadline: float,
-            max_cases: int, case_timeout: float, out_path: str) -> None:
+            max_cases: int, case_timeout: float, out_path: str,
+            start: int = 0) -> None:
     faulthandler.enable()
     mod = load_prop(mod_id)
     agg = new_agg()
-    i = w
+    i = start + w
     cur_path = out_path + ".current"
     last_dump = time.time()
 
@@ -129,6 +130,7 @@ def _worker(mod_id: str, seed: int, tier: str, w: int, nw: int, deadline: float,
                 print(f"[debug] slow case {i}: {res['wall']:.1f}s "
                       f"{res.get('vclass')}", file=sys.stderr)
             fold(agg, case, res)
+            agg["max_index"] = max(agg.get("max_index", -1), i)
             i += nw
         try:
             os.unlink(cur_path)
@@ -142,7 +144,7 @@ def new_agg() -> dict:
     return {"evaluations": 0, "violations": [], "harness_errors": [],
             "digests": set(), "states": set(), "stats": {}, "faults": {},
             "probes": {}, "samples": [], "wall_cases": 0.0, "nontrivial": 0,
-            "case_digests": {}}
+            "case_digests": {}, "max_index": -1}
 
 
 def fold(agg: dict, case: dict, res: dict) -> None:
@@ -189,6 +191,7 @@ def merge(aggs: list[dict]) -> dict:
         tot["digests"].update(a["digests"])
         tot["states"].update(a["states"])
         tot["case_digests"].update(a["case_digests"])
+        tot["max_index"] = max(tot["max_index"], a.get("max_index", -1))
         for k in ("stats", "faults", "probes"):
             for name, v in a[k].items():
                 tot[k][name] = tot[k].get(name, 0) + v
@@ -384,7 +387,29 @@ def cmd_check(mod_id: str, tier: str) -> int:
     nw = int(os.environ.get("VERIF_WORKERS", b.get("workers", 16)))
     if hasattr(mod, "setup"):
         mod.setup(tier, build=True)
-    tmp = f"/dev/shm/verif-run-{os.getpid()}"
+    agg, harness_problems = run_round(mod, mod_id, seed, tier, nw, b, 0)
+    # vacuity guard: when a minimum-reach requirement is not met within the
+    # budget (slow or busy machine) explore further before giving up
+    rounds = 1
+    while (hasattr(mod, "reach") and not agg["violations"] and
+           not harness_problems and mod.reach(agg) and rounds < 3):
+        more, hp = run_round(mod, mod_id, seed, tier, nw, b,
+                             agg["max_index"] + 1)
+        more["digests"] = sorted(more["digests"])
+        more["states"] = sorted(more["states"])
+        agg["digests"] = sorted(agg["digests"])
+        agg["states"] = sorted(agg["states"])
+        agg = merge([agg, more])
+        harness_problems += hp
+        rounds += 1
+    sim_wall = time.time() - t0
+    return finish_check(mod, mod_id, prop, seed, tier, nw, b, agg,
+                        harness_problems, sim_wall, t0, rounds)
+
+
+def run_round(mod, mod_id: str, seed: int, tier: str, nw: int, b: dict,
+              start: int):
+    tmp = f"/dev/shm/verif-run-{os.getpid()}-{start}"
     os.makedirs(tmp, exist_ok=True)
     ctx = multiprocessing.get_context("fork")
     deadline = time.time() + b["wall_s"]
@@ -393,7 +418,7 @@ def cmd_check(mod_id: str, tier: str) -> int:
         p = ctx.Process(target=_worker,
                         args=(mod_id, seed, tier, w, nw, deadline,
                               b["max_cases"], b["case_timeout"],
-                              os.path.join(tmp, f"w{w}.json")))
+                              os.path.join(tmp, f"w{w}.json"), start))
         p.start()
         procs.append(p)
     harness_problems = []
@@ -461,7 +486,12 @@ def cmd_check(mod_id: str, tier: str) -> int:
     aggs.append(extra)
     shutil.rmtree(tmp, ignore_errors=True)
     agg = merge(aggs) if aggs else new_agg()
-    sim_wall = time.time() - t0
+    return agg, harness_problems
+
+
+def finish_check(mod, mod_id: str, prop: str, seed: int, tier: str, nw: int,
+                 b: dict, agg: dict, harness_problems: list, sim_wall: float,
+                 t0: float, rounds: int) -> int:
     if os.environ.get("VERIF_DEBUG"):
         print(f"[debug] workers done at {sim_wall:.1f}s", file=sys.stderr)
 
@@ -530,6 +560,7 @@ def cmd_check(mod_id: str, tier: str) -> int:
             "seeds_per_hour": int(agg["evaluations"] / max(sim_wall, 1e-6) *
                                   3600),
             "workers": nw,
+            "exploration_rounds": rounds,
             "simulated_time": getattr(mod, "SIM_TIME_NOTE",
                                       "sedpack has no timers; simulated time "
                                       "is nominal - see scheduler_decisions / "
